@@ -27,6 +27,10 @@ pub struct Case {
   pub globs: Vec<String>,
   pub specs: Vec<String>,
   pub shuffle_seed: u64,
+  /// how the root is written on the command line: 0 `root`, 1 `root/`, 2 `root/.` (directories and links to them only)
+  pub root_spelling: u8,
+  /// a file whose name is not UTF-8 sits in the root directory (it cannot be listed: the command must fail, not skip it)
+  pub bad_name: bool,
   /// a unix socket and a character device are placed in the root directory (they are not regular files: never listed)
   pub specials: bool,
 }
@@ -56,11 +60,18 @@ fn t_from(v: &Value) -> Option<T> {
 
 impl Case {
   fn to_json(&self) -> Value {
-    json!({"root": t_json(&self.root), "ignore": self.ignore, "hidden": self.hidden, "junk": self.junk, "follow": self.follow, "globs": self.globs, "specs": self.specs, "shuffle_seed": self.shuffle_seed, "specials": self.specials,
+    json!({"root": t_json(&self.root), "ignore": self.ignore, "hidden": self.hidden, "junk": self.junk, "follow": self.follow, "globs": self.globs, "specs": self.specs, "shuffle_seed": self.shuffle_seed, "specials": self.specials, "root_spelling": self.root_arg(), "file_with_non_utf8_name": self.bad_name,
            "other_options": self.noise()})
   }
   /// other options of create riding along (a function of the case's seed, so that a replay repeats them);
   /// they add metadata only and must not change which files are listed or in which order
+  fn root_arg(&self) -> &'static str {
+    match (self.root_spelling, &self.root) {
+      (1, T::Dir(_) | T::LinkDir(_)) => "root/",
+      (2, T::Dir(_) | T::LinkDir(_)) => "root/.",
+      _ => "root",
+    }
+  }
   fn noise(&self) -> Vec<String> {
     super::create_noise(&mut Rng(self.shuffle_seed ^ 0x6e6f697365), &["--sort-by"])
   }
@@ -75,13 +86,15 @@ impl Case {
       globs: strs("globs"),
       specs: strs("specs"),
       shuffle_seed: v.get("shuffle_seed").and_then(|s| s.as_u64()).unwrap_or(0),
+      root_spelling: match v.get("root_spelling").and_then(|s| s.as_str()) { Some("root/") => 1, Some("root/.") => 2, _ => 0 },
+      bad_name: v.get("file_with_non_utf8_name").and_then(|b| b.as_bool()).unwrap_or(false),
       specials: v.get("specials").and_then(|b| b.as_bool()).unwrap_or(false),
     })
   }
 }
 
-const NAMES: [&str; 22] = [
-  "a", "b", "c", "a.b", "a b", "ab", "B", "z", "x.txt", "y.txt", "n.md", ".hid", ".git", ".a", "Thumbs.db", "Desktop.ini", "thumbs.db", "Thumbs.db.bak", "desktop.ini", "é", "a-b", "a_b",
+const NAMES: [&str; 25] = [
+  ".DS_Store", "!a", "a,b", "a", "b", "c", "a.b", "a b", "ab", "B", "z", "x.txt", "y.txt", "n.md", ".hid", ".git", ".a", "Thumbs.db", "Desktop.ini", "thumbs.db", "Thumbs.db.bak", "desktop.ini", "é", "a-b", "a_b",
 ];
 
 fn gen_entries(rng: &mut Rng, depth: usize, allow_links: bool) -> Vec<(String, T)> {
@@ -110,7 +123,9 @@ fn gen(rng: &mut Rng) -> Case {
     2 => T::LinkDir(gen_entries(rng, 1, false)),
     _ => T::Dir(gen_entries(rng, 0, true)),
   };
-  let globs_pool = ["*.txt", "!*.txt", "a*", "!a*", "c/*", "!c/*", "*b*", "?", "[ab]", "![ab]*", "*", "!*", "*/*", "a", "!b", "*.md", "c/a", ".hid", "!.*", "*/.a"];
+  let globs_pool = ["*.txt", "!*.txt", "a*", "!a*", "c/*", "!c/*", "*b*", "?", "[ab]", "![ab]*", "*", "!*", "*/*", "a", "!b", "*.md", "c/a", ".hid", "!.*", "*/.a",
+    // the empty glob (matches nothing), a name that begins with the negation mark, commas and alternatives
+    "", "!!a", "!a", "*.{txt,md}", "{a,b}", "!{a,c}*", "a,b", "*,*"];
   let specs_pool = ["path", "path:ascending", "path:descending", "size", "size:ascending", "size:descending"];
   let ng = *rng.pick(&[0u64, 0, 1, 2, 3, 3, 4, 5]);
   let ns = *rng.pick(&[0u64, 0, 1, 2, 3]);
@@ -126,9 +141,12 @@ fn gen(rng: &mut Rng) -> Case {
     ignore: rng.chance(1, 3),
     junk: rng.chance(1, 2),
     follow: rng.chance(1, 2),
-    globs,
+    globs: globs.clone(),
     specs: (0..ns).map(|_| rng.pick(&specs_pool).to_string()).collect(),
     shuffle_seed: rng.next(),
+    root_spelling: *rng.pick(&[0u8, 0, 0, 1, 2]),
+    // (only without globs: whether a glob would have excluded such a name first is not something the statement pins)
+    bad_name: globs.is_empty() && rng.chance(1, 12),
     specials: rng.chance(1, 4),
   }
 }
@@ -166,6 +184,32 @@ fn build(sb: &Sandbox, rel: &str, t: &T, rng: &mut Rng, link_id: &mut u64) {
   }
 }
 
+/// some regular files of equal size become hard links of one another: they are still separate entries of the tree
+fn hardlink_pass(sb: &Sandbox, root: &T, rng: &mut Rng) {
+  fn collect(t: &T, rel: String, out: &mut Vec<(usize, String)>) {
+    match t {
+      T::File(s) => out.push((*s, rel)),
+      T::Dir(es) => {
+        for (n, e) in es {
+          collect(e, format!("{rel}/{n}"), out);
+        }
+      }
+      _ => {}
+    }
+  }
+  let mut files = Vec::new();
+  collect(root, "root".into(), &mut files);
+  files.sort();
+  for w in files.windows(2) {
+    if w[0].0 == w[1].0 && rng.chance(1, 3) {
+      let (a, b) = (sb.path(&w[0].1), sb.path(&w[1].1));
+      if std::fs::remove_file(&b).is_ok() {
+        let _ = std::fs::hard_link(&a, &b).or_else(|_| std::fs::write(&b, vec![b'x'; w[1].0]));
+      }
+    }
+  }
+}
+
 // ---- S: the documented rules, computed independently
 
 fn glob_match(p: &[u8], s: &[u8]) -> bool {
@@ -174,6 +218,13 @@ fn glob_match(p: &[u8], s: &[u8]) -> bool {
     Some(b'*') => {
       let rest = &p[1..];
       (0..=s.len()).any(|i| glob_match(rest, &s[i..]))
+    }
+    Some(b'{') => {
+      // alternatives: `{a,b}`
+      match p.iter().position(|c| *c == b'}') {
+        Some(close) => p[1..close].split(|c| *c == b',').any(|alt| glob_match(&[alt, &p[close + 1..]].concat(), s)),
+        None => false,
+      }
     }
     Some(b'?') => !s.is_empty() && glob_match(&p[1..], &s[1..]),
     Some(b'[') => {
@@ -218,6 +269,10 @@ fn spec(c: &Case) -> Result<Option<Vec<Vec<String>>>, ()> {
     T::LinkFile(_) | T::LinkDir(_) if !c.follow => return Err(()),
     T::File(_) | T::LinkFile(_) => return Ok(None),
     _ => {}
+  }
+  if c.bad_name && matches!(c.root, T::Dir(_)) {
+    // a name that cannot be written into the torrent: the documented list cannot be produced, so nothing may be
+    return Err(());
   }
   let mut found = Vec::new();
   spec_walk(c, &c.root, &mut Vec::new(), &mut found);
@@ -306,7 +361,7 @@ fn model_line(c: &Case) -> String {
     c.hidden as u8,
     c.junk as u8,
     c.follow as u8,
-    if c.globs.is_empty() { "-".to_string() } else { c.globs.iter().map(|g| hex(g.as_bytes())).collect::<Vec<_>>().join(",") },
+    if c.globs.is_empty() { "-".to_string() } else { c.globs.iter().map(|g| if g.is_empty() { "~".to_string() } else { hex(g.as_bytes()) }).collect::<Vec<_>>().join(",") },
     if specs.is_empty() { "-".to_string() } else { specs.join(",") },
     toks.join(" ")
   )
@@ -329,7 +384,22 @@ fn observe(ctx: &Ctx, c: &Case) -> Obs {
     _listener = std::os::unix::net::UnixListener::bind(sb.path("root/sock.s")).ok();
     let _ = std::process::Command::new("mknod").arg(sb.path("root/dev.n")).args(["c", "1", "3"]).status();
   }
-  let mut args: Vec<String> = ["torrent", "create", "--input", "root", "--output", "o.torrent", "--piece-length", "16384"].iter().map(|s| s.to_string()).collect();
+  if matches!(c.root, T::Dir(_)) {
+    hardlink_pass(&sb, &c.root, &mut rng);
+    if c.bad_name {
+      use std::os::unix::ffi::OsStrExt;
+      let _ = std::fs::write(sb.path("root").join(std::ffi::OsStr::from_bytes(b"b\xff")), b"x");
+    }
+  }
+  // a per-user ignore file that names some of the files: it is no business of a run without --ignore
+  let mut home_env = false;
+  if !c.ignore {
+    sb.write("home/.config/git/ignore", b"a\n*.txt\n*.md\nc/\n");
+    sb.write("home/excl", b"b\nz\n");
+    sb.write("home/.gitconfig", format!("[core]\n\texcludesFile = {}\n", sb.path("home/excl").display()).as_bytes());
+    home_env = true;
+  }
+  let mut args: Vec<String> = ["torrent", "create", "--input", c.root_arg(), "--output", "o.torrent", "--piece-length", "16384"].iter().map(|s| s.to_string()).collect();
   if c.hidden {
     args.push("--include-hidden".into());
   }
@@ -353,7 +423,12 @@ fn observe(ctx: &Ctx, c: &Case) -> Obs {
     args.push(s.clone());
   }
   args.extend(c.noise());
-  let out = Cmd::args_owned(&ctx.imdl, args).cwd(&sb.root).run();
+  let mut cmd = Cmd::args_owned(&ctx.imdl, args).cwd(&sb.root);
+  if home_env {
+    let home = sb.path("home");
+    cmd = cmd.env("HOME", &home.to_string_lossy()).env("XDG_CONFIG_HOME", &home.join(".config").to_string_lossy());
+  }
+  let out = cmd.run();
   let listed = std::fs::read(sb.path("o.torrent")).ok().and_then(|t| bencode::decode(&t).ok()).and_then(|v| {
     let info = v.get("info")?.clone();
     match info.get("files") {
@@ -401,7 +476,7 @@ pub fn run(ctx: &Ctx) -> Report {
     match &want {
       Err(()) => {
         if o.code != Some(1) {
-          pf = Some(format!("a symlink given as the root must be refused without --follow-symlinks; exit {:?}", o.code));
+          pf = Some(format!("{}; exit {:?}, listed {:?}", if c.bad_name { "a file whose name is not UTF-8 cannot be listed: the command must fail rather than leave it out" } else { "a symlink given as the root must be refused without --follow-symlinks" }, o.code, o.listed));
         }
       }
       Ok(w) => {
@@ -414,6 +489,11 @@ pub fn run(ctx: &Ctx) -> Report {
     }
     if let Some(d) = pf {
       report.fail("property", "listed-files-differ-from-documented-rules", case, d);
+      continue;
+    }
+    if c.globs.iter().any(|g| g.contains('{')) || c.bad_name {
+      // alternatives are outside the model's glob language; names that are not text cannot be sent to it
+      report.out_of_model += 1;
       continue;
     }
     let ans = model.ask(&model_line(c));
